@@ -514,6 +514,12 @@ def _inv_uniform(eng, o, idx, ln):
                     o.why = ("INV-UNIFORM: every element stored into the indexed collection passed `y.len() == L` at its single "
                              "write site (%s) for a loop-invariant L" % p["at"])
                     return True
+                if lx.op == "len" and lx.args[0].op == "field" and lx.args[0].args[1] == k and x.op != "enum" and \
+                        _same_elem(lx.args[0].args[0], el) and sy.op == "phi" and _first_or_self(eng, sy, key, k, el, fkey):
+                    o.status = True
+                    o.why = ("INV-UNIFORM: every element stored into the indexed collection passed `y.len() == L` at its single write "
+                             "site (%s), where L is the first stored element's y.len(), or its own while the collection is still empty" % p["at"])
+                    return True
                 if lx.op == "len" and lx.args[0].op == "field" and lx.args[0].args[1] == k and \
                         _same_elem(lx.args[0].args[0], el) and sy.op == "phi" and (x.op == "enum") == (sy is y):
                     if _set_once(eng, sy, fkey):
@@ -522,6 +528,39 @@ def _inv_uniform(eng, o, idx, ln):
                                  "single write site (%s), and the reference length is assigned only while unset" % p["at"])
                         return True
     return False
+
+
+def _first_or_self(eng, E, key, k, el, fkey):
+    """E is a join (not a loop accumulator) of the frame fkey whose incoming values are `len(V[0].k)` for the collection V
+    the push goes to, or the pushed element's own `len(.k)` on an edge where V is known to be empty"""
+    if Q.is_loop_acc(E):
+        return False
+    ps = Q.phi_site(eng, E.args[0])
+    inc = PHI.get(E.args[0]) or {}
+    if ps is None or ps[0] != fkey or len(inc) < 2:
+        return False
+
+    def same_vec(v):
+        return is_t(v) and v.op == "phi" and v.args[0][0] == key[0] and v.args[0][-1] == key[-1]
+    kinds = set()
+    for edge, v in inc.items():
+        if not (is_t(v) and v.op == "len" and v.args[0].op == "field" and v.args[0].args[1] == k):
+            return False
+        src = v.args[0].args[0]
+        while src.op in ("deref", "refv"):
+            src = src.args[0]
+        if src.op == "index" and src.args[1].op == "int" and src.args[1].args[0] == 0 and same_vec(src.args[0]):
+            kinds.add("first")
+            continue
+        if _same_elem(v.args[0].args[0], el):
+            fs = Q.closure(eng, eng.facts_at(ps[0], edge))
+            empty = any(t.op == "eq" and rel == "eq" and vv == 1 and t.args[0].op == "len" and same_vec(t.args[0].args[0]) and
+                        t.args[1].op == "int" and t.args[1].args[0] == 0 for t, rel, vv in fs)
+            if empty:
+                kinds.add("self")
+                continue
+        return False
+    return kinds == {"first", "self"}
 
 
 def _loop_invariant(eng, y, fkey):
